@@ -759,3 +759,138 @@ def _minmax_agg(model, extra):
         return {"confirmed": False}
     ok = r in list(rule.body) and r.ast_type == A.ASTType.Literal and r.atom.ast_type == A.ASTType.BodyAggregate and r.atom.function in (A.AggregateFunction.Min, A.AggregateFunction.Max)
     return {"confirmed": not ok, "result": str(r)}
+
+
+# ---------------------------------------------------------------------------------------------
+# C08 closure / mappings: semantic referee by enumeration of small interpretations
+def _closure_check(mappings):
+    import itertools
+
+    from ngo.cleanup import CleanupTranslator
+
+    mappings = [mp for mp in mappings if _wellformed_mapping(mp) and mp.head_pred.arity <= 2 and mp.body_pred.pred.arity <= 2]
+    try:
+        res = CleanupTranslator.transitive_closure(set(mappings))
+    except Exception as e:  # pylint: disable=broad-except
+        return {"exception": repr(e), "input": [str(m) for m in mappings]}
+    if not set(mappings) <= res:
+        return {"why": "closure lost an input mapping", "input": [str(m) for m in mappings]}
+    preds = set()
+    for mp in list(mappings) + list(res):
+        preds.add((mp.head_pred.name, mp.head_pred.arity))
+        preds.add((mp.body_pred.pred.name, mp.body_pred.pred.arity))
+    dom = [1, 2]
+    atoms = [(p, t) for p in sorted(preds) for t in itertools.product(dom, repeat=p[1])]
+    if len(atoms) > 16:
+        return None
+    for mp in res:
+        if not _wellformed_mapping(mp):
+            return {"why": "ill-formed mapping in closure", "mapping": str(mp), "input": [str(m) for m in mappings]}
+    new = [mp for mp in res if mp not in mappings]
+    for bits in itertools.product((False, True), repeat=len(atoms)):
+        I = {a for a, b in zip(atoms, bits) if b}
+        if not all(_mapping_valid(I, mp, dom) for mp in mappings):
+            continue
+        for mp in new:
+            if not _mapping_valid(I, mp, dom):
+                return {"why": "all given mappings are valid in this interpretation but a derived one is not", "derived": str(mp), "input": [str(m) for m in mappings], "interpretation": sorted(f"{p[0]}{t}" for p, t in I)}
+    return None
+
+
+def _adversarial_mapping_sets():
+    from ngo.cleanup import Mapping
+    from ngo.utils.ast import Predicate, SignedPredicate
+
+    S = A.Sign
+    a2, b2, c1, c2, d1 = Predicate("a", 2), Predicate("b", 2), Predicate("c", 1), Predicate("c", 2), Predicate("d", 1)
+    return [
+        [Mapping(a2, SignedPredicate(S.NoSign, b2), (1, 0)), Mapping(b2, SignedPredicate(S.NoSign, c1), (0,))],
+        [Mapping(a2, SignedPredicate(S.NoSign, b2), (1, 0)), Mapping(b2, SignedPredicate(S.NoSign, c2), (1, 1))],
+        [Mapping(a2, SignedPredicate(S.Negation, b2), (0, 1)), Mapping(b2, SignedPredicate(S.NoSign, c1), (0,))],
+        [Mapping(a2, SignedPredicate(S.DoubleNegation, b2), (0, 1)), Mapping(b2, SignedPredicate(S.NoSign, c1), (1,))],
+        [Mapping(a2, SignedPredicate(S.NoSign, b2), (0, 0)), Mapping(b2, SignedPredicate(S.Negation, c1), (1,))],
+        [Mapping(d1, SignedPredicate(S.NoSign, a2), (0, 0)), Mapping(a2, SignedPredicate(S.NoSign, b2), (1, 0)), Mapping(b2, SignedPredicate(S.NoSign, c1), (1,))],
+    ]
+
+
+@mirror("transitive_closure")
+def _transitive_closure(model, extra):
+    sets = []
+    try:
+        sets.append(build(model.get("a") or []))
+    except Exception:  # pylint: disable=broad-except
+        pass
+    sets += _adversarial_mapping_sets()
+    for ms in sets:
+        r = _closure_check(ms)
+        if r is not None:
+            return {"confirmed": True, **r}
+    return {"confirmed": False, "sets_tried": len(sets)}
+
+
+# ---------------------------------------------------------------------------------------------
+# bounded native stand-ins (used only when a changed function left the verifier's reach; labelled bounded)
+@mirror("corpus")
+def _corpus(model, extra):
+    from native.corpus import CORPUS
+    from native.witnesses import models, optimise
+
+    trait = extra["trait"]
+    traits = [] if trait == "none" else [trait]
+    problems = []
+    n = 0
+    for prg, factsets in CORPUS[trait]:
+        try:
+            new = optimise(prg, traits)
+        except Exception as e:  # pylint: disable=broad-except
+            problems.append({"program": prg, "exception": repr(e)})
+            continue
+        for facts in factsets:
+            n += 1
+            a, b = models(prg, facts), models(new, facts)
+            if a != b:
+                problems.append({"program": prg, "facts": facts, "optimised": new, "source_answer_sets": len(a), "result_answer_sets": len(b), "first_difference": [x for x in a if x not in b][:1] + [x for x in b if x not in a][:1]})
+                break
+    return {"confirmed": bool(problems), "bounded": True, "bound": f"{n} program/instance pairs of native/corpus.py[{trait}]", "problems": problems[:2]}
+
+
+@mirror("verify_enable_bounded")
+def _verify_enable_bounded(model, extra):
+    import itertools
+    from argparse import ArgumentTypeError
+
+    from ngo.utils.parser import get_parser
+
+    parser = get_parser()
+    n = 0
+    lists = [list(t) for r in (1, 2, 3) for t in itertools.product(TOKENS, repeat=r)]
+    lists += [list(t) for t in itertools.product(["default", "duplication", "cleanup", "all"], repeat=4)]
+    for toks in lists:
+        n += 1
+        want_error = "none" in toks and len(toks) > 1
+        try:
+            args = parser.parse_args(["--enable"] + toks)
+        except ArgumentTypeError:
+            if not want_error:
+                return {"confirmed": True, "bounded": True, "argv": toks, "got": "ArgumentTypeError", "want": sorted(_expected_enable(toks))}
+            continue
+        except SystemExit:
+            return {"confirmed": True, "bounded": True, "argv": toks, "got": "SystemExit"}
+        got = {k for k in TRAITS if k in args.enable}
+        if want_error or got != _expected_enable(toks):
+            return {"confirmed": True, "bounded": True, "argv": toks, "got": sorted(got), "want": "error" if want_error else sorted(_expected_enable(toks))}
+    return {"confirmed": False, "bounded": True, "bound": f"all {n} token lists up to length 3 (+ length 4 over default/duplication/cleanup/all)"}
+
+
+@mirror("optimize_gating_bounded")
+def _optimize_gating_bounded(model, extra):
+    import itertools
+
+    n = 0
+    for bits in itertools.product((False, True), repeat=9):
+        n += 1
+        mdl = {"flag_" + fl: b for (fl, _c, _k), b in zip(PASS_TABLE, bits)}
+        r = _optimize_gating(mdl, extra)
+        if r.get("confirmed"):
+            return dict(r, bounded=True)
+    return {"confirmed": False, "bounded": True, "bound": f"all {n} flag combinations, two rounds"}
